@@ -1403,6 +1403,12 @@ impl Gen {
                     let from_bridge = self.rng.chance(35) && !self.view.bridges.is_empty();
                     let denom = *self.rng.pick(&ASSETS);
                     let ch = self.rng.below(2);
+                    if adversarial && self.rng.chance(25) {
+                        // a plain (non-bridge) account named as the bridge, signed by somebody else
+                        let victim = *self.rng.pick(&["a0", "a1", "a2", "a3", "r0"]);
+                        let id = self.event_id(false);
+                        return (user, 4, format!("ics20,{amt},{denom},{ch},{fa},{victim},{id},1,{}", self.rng.pick(&USERS)));
+                    }
                     if from_bridge {
                         let b = self.bridge(adversarial);
                         let id = self.event_id(adversarial);
